@@ -63,6 +63,12 @@ MUTANTS = {
         ('budget_ignored', r'ReceiveChannelUnreliable::new\(channel_config\.channel_id, channel_config\.max_memory_usage_bytes\)', 'ReceiveChannelUnreliable::new(channel_config.channel_id, 0)'),
         ('send_order_wrong_kind', r'channel_send_order\.push\(ChannelOrder::Reliable\(channel_config\.channel_id\)\);', 'channel_send_order.push(ChannelOrder::Unreliable(channel_config.channel_id));'),
     ],
+    'U17': [
+        ('final_flush_dropped', r'if !small_messages\.is_empty\(\) \{', 'if false {'),
+        ('flush_sequence_not_advanced', r'(messages: std::mem::take\(&mut small_messages\),\s*\}\);\s*)\*packet_sequence \+= 1;', r'\1'),
+        ('early_return_leaks_budget', r'if self\.unacked_messages\.is_empty\(\) \{\s+return vec!\[\];', 'if self.unacked_messages.is_empty() { *available_bytes = 0; return vec![];'),
+        ('step_drops_invariant', r'lemma_rloop_step\(pre, post, seq0, avail0, steps, channel_id, message_id, um, current_time, resend_time\);', ''),
+    ],
     'U16': [
         ('budget_doubled', r'let mut available_bytes = self\.available_bytes_per_tick;', 'let mut available_bytes = self.available_bytes_per_tick * 2;'),
         ('ack_sequence_not_advanced', r'self\.packet_sequence \+= 1;(\s+)packets\.push\(ack_packet\);', r'\1packets.push(ack_packet);'),
